@@ -155,6 +155,15 @@ pub fn inspect(tid: i32) -> Result<Option<String>, String> {
         if waits.is_empty() {
             return Ok(None);
         }
+        // Can the thread's own wait complete right now?  This process can ask
+        // the kernel directly: a zero-timeout poll on the same descriptors.
+        // (The thread's syscall line alone cannot tell a stuck poll from a
+        // loop of polls that each return at once.)
+        let mut probe: Vec<libc::pollfd> = waits.iter().map(|(fd, r)| libc::pollfd { fd: *fd as i32, events: if *r { libc::POLLIN } else { libc::POLLOUT }, revents: 0 }).collect();
+        let ready = unsafe { libc::syscall(libc::SYS_poll, probe.as_mut_ptr(), probe.len(), 0) };
+        if ready != 0 {
+            return Ok(None);
+        }
         let mut all = my_children();
         all.push(me);
         let mut trace = vec![format!("harness thread {} is blocked in {} without timeout", tid, if nr == libc::SYS_poll { "poll" } else if nr == libc::SYS_read { "read" } else { "write" })];
@@ -177,8 +186,10 @@ pub fn inspect(tid: i32) -> Result<Option<String>, String> {
                 }
             }
         }
+        // still nothing ready and the thread still in the same call?
+        let ready = unsafe { libc::syscall(libc::SYS_poll, probe.as_mut_ptr(), probe.len(), 0) };
         let after = std::fs::read_to_string(&path).unwrap_or_default();
-        return Ok(if before == after { Some(trace.join("; ")) } else { None });
+        return Ok(if before == after && ready == 0 { Some(trace.join("; ")) } else { None });
     }
     if nr != libc::SYS_wait4 {
         return Ok(None);
@@ -242,7 +253,14 @@ pub fn run<T: Send + 'static>(f: impl FnOnce() -> T + Send + 'static, hard_limit
         }
         waited_ms = ((ip::real_now_ns() - t0) / 1_000_000) as u64;
         if waited_ms >= 150 {
-            match inspect(tid) {
+            match inspect(tid).and_then(|first| match first {
+                // a wait-for cycle persists: it must still be there a moment later
+                Some(_) => {
+                    ip::real_sleep_ms(100);
+                    inspect(tid)
+                }
+                None => Ok(None),
+            }) {
                 Ok(Some(desc)) => {
                     kill_children();
                     let late = rx.recv_timeout(std::time::Duration::from_secs(20)).ok();
@@ -292,7 +310,16 @@ pub fn guard<T>(f: impl FnOnce() -> T) -> (T, Option<String>) {
             if (ip::real_now_ns() - t0) / 1_000_000 < 150 {
                 continue;
             }
-            if let Ok(Some(desc)) = inspect(tid) {
+            if let Ok(Some(_)) = inspect(tid) {
+                // a wait-for cycle persists: it must still be there a moment later
+                ip::real_sleep_ms(100);
+                let desc = match inspect(tid) {
+                    Ok(Some(d)) => d,
+                    _ => continue,
+                };
+                if s2.load(SeqCst) {
+                    return;
+                }
                 *f2.lock().unwrap() = Some(desc);
                 // keep killing until the guarded call is over (it may start more children)
                 while !s2.load(SeqCst) {
